@@ -8,6 +8,7 @@ d R-THREAD six cleavage parameters flow name-to-name into the pool construction
 e R-ONCE   enzymatic_cleave considers every window within the miscleavage limit
 """
 import ast
+import re
 from sa.model import unparse, norm_stmt, call_name, kwarg, walk_no_nested, AnalysisError, str_consts
 from sa.cfg import CFG, iteration_paths
 from sa import guards as G
@@ -186,6 +187,8 @@ def rule_taint(chk, repo):
                 v = st.value
                 if is_resolution(v, S, S):
                     out.add('res:' + t)
+                elif isinstance(v, ast.Subscript) and unparse(v.value) == 'EXPASY_RULES' and isinstance(v.slice, ast.Name) and 'key:' + v.slice.id in S:
+                    out.add('res:' + t)          # x = EXPASY_RULES[e] under `e in EXPASY_RULES`
                 elif isinstance(v, ast.Name) and 'res:' + v.id in S:
                     out.add('res:' + t)
                 elif isinstance(v, ast.Name) and 'raw:' + v.id in S:
@@ -194,7 +197,16 @@ def rule_taint(chk, repo):
             if isinstance(st, (ast.AugAssign, ast.AnnAssign)) and isinstance(st.target, ast.Name):
                 return frozenset(x for x in S if x[4:] != st.target.id)
             return S
-        cfg, state = _sem.must_set_flow(fnode, transfer, init={'raw:exception'})
+        def edge(test, lab, S):
+            # `e in EXPASY_RULES`: on the false edge the name is its own resolution (get(e, e) == e); on the true edge e is a key
+            from sa.cfg import literal as _lit
+            atom, pol = _lit(test)
+            m_ = re.fullmatch(r'(\w+) in EXPASY_RULES', atom)
+            if m_ and ('raw:' + m_.group(1)) in S:
+                is_member = (lab == 'T') == pol
+                return frozenset(S | ({'key:' + m_.group(1)} if is_member else {'res:' + m_.group(1)}))
+            return S
+        cfg, state = _sem.must_set_flow(fnode, transfer, init={'raw:exception'}, edge_transfer=edge)
         # names that may ever carry the parameter (raw or resolved), for instance discovery
         carriers = {'exception'}
         for _ in range(3):
